@@ -277,3 +277,7 @@ for _p in ("C09", "C02"):
     PROPS[_p]["rule"] += " ; plus " + ABORT_RULE
 ENGINES["abort"] = ("tests with plain asserts (a failing comparison ends the test): every order of approving categories vs together, disabled re-run; direct oracles only "
                     "(the site model has no notion of a test that ends early)")
+
+PROPS["C20"]["engines"].append(("multifile", {"quick": 40, "thorough": 800}))
+PROPS["C20"]["rule"] += (" ; plus real sessions over 2-3 files, some formatter-clean under a [tool.black] line-length of the project, a third of the sessions started from a directory "
+                         "outside the project (harness/engines/multifile.py)")
